@@ -135,6 +135,17 @@ Theorem cost_linear : forall (b : list N), (cost b <= 8 * zlen b)%Z.
 Proof. exact cost_bound. Qed.
 Print Assumptions cost_linear.
 
+(* verifyVC2Proof indexes the verifier's messages by a running counter: it stays inside them whenever the payload
+   reveals no more indexes than there are messages (the test VerifyProof makes), for every count and every index set *)
+Theorem never_panics_E5_verify_vc2 : forall count revealed nmsgs s,
+  (Z.of_nat (List.length revealed) <= nmsgs)%Z -> to_res (verify_vc2 count revealed nmsgs) <> Panic s.
+Proof. intros c r n s H. exact (safe_no_panic _ (verify_vc2_safe c r n H) s). Qed.
+Print Assumptions never_panics_E5_verify_vc2.
+(* and that test is needed: three revealed indexes, two messages *)
+Theorem verify_vc2_unguarded_refuted : verify_vc2 4 [0; 1; 3]%Z 2 = GPanic 58.
+Proof. vm_compute; reflexivity. Qed.
+Print Assumptions verify_vc2_unguarded_refuted.
+
 Definition zeros (n : nat) : list N := repeat 0 n.
 (* 144 bytes of points followed by a length field larger than the rest (#5, #23); a payload announcing 0 messages
    with 8 revealed bits; fewer responses than bases (#19) *)
